@@ -22,7 +22,7 @@ import (
 // on the real node of the API checks (8 blocks + 3 pooled transactions).
 func TestC29_NodePaging(t *testing.T) {
 	r := ev.Get("C29")
-	r.Rule("node paging: address filters (1-4 addresses of the node's chain, with duplicates and unknown addresses) x confirmed filter {none, confirmed, unconfirmed} x order {asc, desc} x page size 1..100 (biased to 1..5, the result lists hold up to ~14 transactions) on a real node; oracle: the concatenation of pages 1..N equals the unpaged, de-duplicated list, every page reports N = ceil(len/size) pages, pages N+1, N+2 and drawn 64-bit page numbers (2^63, 2^64-1, values whose (page-1)*size wraps to a small number) are empty, and the HTTP endpoint returns the same pages and page count; non-trivial = the result list spans at least 2 pages; distinct by (filter, order, size)")
+	r.Rule("node paging: address filters (1-4 addresses of the node's chain, with duplicates and unknown addresses) x confirmed filter {none, confirmed, unconfirmed} x order {asc, desc} x page size 1..100 (biased to 1..5, the result lists hold up to ~14 transactions) on a real node; oracle: the concatenation of pages 1..N equals the unpaged, de-duplicated list, every page reports N = ceil(len/size) pages, pages N+1, N+2 and drawn 64-bit page numbers (2^63, 2^64-1, values whose (page-1)*size wraps to a small number) are empty, and the HTTP endpoint (plain and verbose=1) returns the same pages, in the same order, and the same page count; non-trivial = the result list spans at least 2 pages; distinct by (filter, order, size)")
 	tm, err := getTemplate()
 	if err != nil {
 		setupFailed(t, "node template: %v", err)
@@ -90,6 +90,7 @@ func TestC29_NodePaging(t *testing.T) {
 			}
 			return hs, pages
 		}
+		verbose := rapid.Bool().Draw(t, "verbose")
 		viaHTTP := func(page uint64) ([]string, uint64, int) {
 			q := url.Values{}
 			if len(addrStrs) > 0 {
@@ -103,6 +104,9 @@ func TestC29_NodePaging(t *testing.T) {
 			}
 			q.Set("limit", fmt.Sprint(size))
 			q.Set("page", fmt.Sprint(page))
+			if verbose {
+				q.Set("verbose", "1")
+			}
 			s := n.serve(httptest.NewRequest("GET", "http://127.0.0.1:6420/api/v2/transactions?"+q.Encode(), nil), 0)
 			var resp struct {
 				Data struct {
